@@ -454,11 +454,15 @@ struct SetAdapter {
           // the rest of the iterator interface: postfix increment, operator->, prefix/postfix decrement from end()
           G.armed = false;
           size_t n = (size_t)cs.size(), guard = 0;
-          res.reads.reserve(3 * n + 4);
+          res.reads.reserve(5 * n + 4);
           G.armed = true;
           for (auto it = cs.begin(); !(it == cs.end()) && guard++ <= n; it++) { G.armed = false; res.reads.push_back(ElemIO<T>::val(arrow(it))); G.armed = true; }
           guard = 0;
           for (auto it = cs.end(); !(it == cs.begin()) && guard++ <= n;) { --it; G.armed = false; res.reads.push_back(ElemIO<T>::val(*it)); G.armed = true; }
+          guard = 0;
+          for (auto it = cs.end(); !(it == cs.begin()) && guard++ <= n;) { it--; G.armed = false; res.reads.push_back(ElemIO<T>::val(*it)); G.armed = true; }  // postfix --
+          guard = 0;
+          for (auto it = cs.rend(); !(it == cs.rbegin()) && guard++ <= n;) { it--; G.armed = false; res.reads.push_back(ElemIO<T>::val(*it)); G.armed = true; }  // reverse iterator, postfix --
           guard = 0;
           for (auto it = cs.rbegin(); !(it == cs.rend()) && guard++ <= n;) { auto cur = it++; G.armed = false; res.reads.push_back(ElemIO<T>::val(arrow(cur))); G.armed = true; }
         }
